@@ -44,6 +44,10 @@ pub struct C33Scn {
     pub plan: HoldPlan,
     pub hold_write: bool,
     pub bare_twin: bool,
+    /// a front end looks at the device registers between instructions without side effects
+    /// (`read_mem` with `io_effects: false`): (instructions until the next look, address, track_access)
+    #[serde(default)]
+    pub peeks: Vec<(u32, u16, bool)>,
 }
 
 pub struct C33;
@@ -118,12 +122,38 @@ fn mscn(s: &C33Scn, kb_calls: &[u32], disp_calls: &[u32], intervals: &[(bool, u3
     }
 }
 
-fn run_one(m: &MScn, objs: &[lc3_ensemble::asm::ObjectFile], n: usize) -> Result<RunOut, String> {
+fn run_one(m: &MScn, objs: &[lc3_ensemble::asm::ObjectFile], n: usize, peeks: &[(u32, u16, bool)]) -> Result<RunOut, String> {
     let mut w = match guarded(|| build_with(m, Some(objs)))? {
         Ok(w) => w,
         Err(e) => return Err(format!("unbuildable: {e}")),
     };
-    let end = crate::pairs::run_to_end(&mut w)?;
+    let end = if peeks.is_empty() {
+        crate::pairs::run_to_end(&mut w)?
+    } else {
+        // slices of instructions with a side-effect-free look at a device register after each
+        let mut end = crate::pairs::End::Stuck;
+        'drive: for round in 0..200_000usize {
+            let (gap, addr, track) = peeks[round % peeks.len()];
+            match guarded(|| w.sim.run_with_limit(gap.max(1) as u64))? {
+                Err(e) => {
+                    end = crate::pairs::End::Err(err_kind(&e));
+                    break 'drive;
+                }
+                Ok(()) => {
+                    if crate::pairs::program_halted(&w) {
+                        end = crate::pairs::End::Halted;
+                        break 'drive;
+                    }
+                    if crate::pairs::ticks_of(&w) >= m.max_ticks {
+                        break 'drive;
+                    }
+                }
+            }
+            let ctx = lc3_ensemble::sim::MemAccessCtx { privileged: true, strict: false, io_effects: false, track_access: track };
+            let _ = guarded(|| w.sim.read_mem(addr, ctx))?;
+        }
+        end
+    };
     w.host.release_all();
     let recs = w.log.take();
     let rbuf = w.objs[0].symbol_table().and_then(|s| s.lookup_label("RBUF")).unwrap_or(0);
@@ -148,6 +178,10 @@ fn run_one(m: &MScn, objs: &[lc3_ensemble::asm::ObjectFile], n: usize) -> Result
 fn kbdr_refused_after_ready(recs: &[Rec]) -> bool {
     let mut last_ready = false;
     for r in recs {
+        // side-effect-free looks of the front end are not part of the program's poll/access sequence
+        if matches!(r, Rec::Read { eff: false, .. }) {
+            continue;
+        }
         match r {
             // the documented race: a *truthful* ready (lock free at the status read) ...
             Rec::Read { dev: 1, addr: 0xFE00, res, held, .. } => last_ready = !*held && res.is_some_and(|v| v & 0x8000 != 0),
@@ -165,6 +199,9 @@ fn kbdr_refused_after_ready(recs: &[Rec]) -> bool {
 fn ddr_refused_after_ready(recs: &[Rec]) -> bool {
     let mut last_ready = false;
     for r in recs {
+        if matches!(r, Rec::Read { eff: false, .. }) {
+            continue;
+        }
         match r {
             Rec::Read { dev: 2, addr: 0xFE04, res, held, .. } => last_ready = !*held && res.is_some_and(|v| v & 0x8000 != 0),
             Rec::Write { dev: 2, addr: 0xFE06, res: false, held: true, .. } => {
@@ -221,7 +258,11 @@ fn judge(s: &C33Scn, o: &RunOut, what: &str) -> Option<(String, String)> {
         return Some(("lost-input".into(), format!("{what}: received {:?}, pushed {:?}", o.received, s.keys)));
     }
     if !o.queue_left.is_empty() {
-        return Some(("input-not-consumed".into(), format!("{what}: {:?} left in the keyboard queue although the program received every byte", o.queue_left)));
+        // the refused KBDR read of the documented race delivers whatever the memory mirror of KBDR
+        // holds; after a front end has looked at KBDR that is the byte still at the head of the queue,
+        // so the program "receives" it without consuming it: same site, same finding
+        let class = if kbdr_refused_after_ready(&o.recs) { "phantom-input@KBDR-read-refused" } else { "input-not-consumed" };
+        return Some((class.into(), format!("{what}: {:?} left in the keyboard queue although the program received every byte", o.queue_left)));
     }
     if o.shown != exp_out {
         let class = if ddr_refused_after_ready(&o.recs) {
@@ -249,7 +290,7 @@ impl C33 {
         };
         let n = s.keys.len();
         // fault-free baseline: no holds at all — the oracle must be quiet here
-        let b = match run_one(&base, &objs, n) {
+        let b = match run_one(&base, &objs, n, &[]) {
             Ok(b) => b,
             Err(e) => {
                 vio.push(Violation { class: "panic".into(), step: 0, detail: e });
@@ -313,7 +354,7 @@ impl C33 {
             if !cr.is_empty() {
                 out.bump("fired.lock-poison");
             }
-            let o = match run_one(&m, &objs, n) {
+            let o = match run_one(&m, &objs, n, &s.peeks) {
                 Ok(o) => o,
                 Err(e) => {
                     vio.push(Violation { class: "panic".into(), step: i as u64, detail: e });
@@ -339,7 +380,7 @@ impl C33 {
             // bare twin: the direct SimDevice::Keyboard/Display path must behave like the wrapped one
             if s.bare_twin && kc.is_empty() && dc.is_empty() {
                 let mb = mscn(s, kc, dc, iv, cr, true, m.max_ticks);
-                if let Ok(ob) = run_one(&mb, &objs, n) {
+                if let Ok(ob) = run_one(&mb, &objs, n, &s.peeks) {
                     if ob.received != o.received || ob.shown != o.shown || ob.halted != o.halted {
                         vio.push(Violation { class: "bare-vs-wrapped".into(), step: i as u64, detail: format!("{what}: bare devices gave received {:?} shown {:?}, wrapped devices received {:?} shown {:?}", ob.received, ob.shown, o.received, o.shown) });
                         return vio;
@@ -370,7 +411,7 @@ impl Check for C33 {
     }
     fn meta(&self) -> Meta {
         Meta {
-            rule: "Echo programs (GETC/OUT loop, hand-rolled KBSR/DSR polling loop, GETC then PUTS, IN loop) with 1-12 distinct input bytes pushed in bursts at scheduled boundaries; real BufferedKeyboard/BufferedDisplay behind Contended<D>. Lock schedules: holds of the keyboard or display buffer (read or write guard) over boundary intervals, holds for exactly one device call, and holder crashes (a thread panics while holding the write guard at a boundary: the lock is poisoned and free afterwards). For inputs of <= 2 bytes every single boundary interval for each lock, every single-call hold, every pair of single-call holds and a holder crash at every boundary is enumerated against the fault-free run; longer inputs use random schedules. Oracle per schedule: received == pushed (once, in order), queue drained, shown == emitted, program finishes within the budget after the last release; the fault-free baseline and a bare-device twin must agree. Non-trivial: >=1 device call actually refused because a lock was held.",
+            rule: "Echo programs (GETC/OUT loop, hand-rolled KBSR/DSR polling loop, GETC then PUTS, IN loop) with 1-12 distinct input bytes pushed in bursts at scheduled boundaries; real BufferedKeyboard/BufferedDisplay behind Contended<D>. Lock schedules: holds of the keyboard or display buffer (read or write guard) over boundary intervals, holds for exactly one device call, side-effect-free looks of a front end at the device registers between instructions (read_mem with io_effects off), and holder crashes (a thread panics while holding the write guard at a boundary: the lock is poisoned and free afterwards). For inputs of <= 2 bytes every single boundary interval for each lock, every single-call hold, every pair of single-call holds and a holder crash at every boundary is enumerated against the fault-free run; longer inputs use random schedules. Oracle per schedule: received == pushed (once, in order), queue drained, shown == emitted, program finishes within the budget after the last release; the fault-free baseline and a bare-device twin must agree. Non-trivial: >=1 device call actually refused because a lock was held.",
             components_real: &["BufferedKeyboard", "BufferedDisplay", "std RwLock try_write (real guards held on the same thread)", "OS GETC/OUT/PUTS/IN routines", "Simulator::run"],
             components_stub: &["Contended<D> wrapper (host decision per device call)", "ClockDev (host decision per boundary)", "entropy source"],
             assumptions: &["a guard held on the simulator's own thread makes try_write return WouldBlock exactly as a guard held by another thread would"],
@@ -420,7 +461,7 @@ impl Check for C33 {
                 crashes: (0..if r.chance(1, 3) { 1 + r.below(2) } else { 0 }).map(|_| (r.bool(), r.below(600) as u32)).collect(),
             }
         };
-        C33Scn { entropy: r.next_u64(), real_traps: r.bool(), program: r.below(4) as u8, keys, pushes, text, plan, hold_write: r.bool(), bare_twin: r.chance(1, 3) }
+        C33Scn { entropy: r.next_u64(), real_traps: r.bool(), program: r.below(4) as u8, keys, pushes, text, plan, hold_write: r.bool(), bare_twin: r.chance(1, 3), peeks: if !short && r.chance(1, 3) { (0..1 + r.below(4)).map(|_| (1 + r.below(9) as u32, *r.pick(&[0xFE02u16, 0xFE02, 0xFE00, 0xFE04, 0xFE06]), r.bool())).collect() } else { vec![] } }
     }
     fn execute(&self, s: &C33Scn) -> Outcome {
         let mut out = Outcome::default();
